@@ -24,7 +24,7 @@ impl Prop for C01 {
         "exploration"
     }
     fn rule(&self) -> String {
-        "run = seeded valid writer history (start/append/end/add interleaved, boundary-biased piece sizes relative to the variant's constants) on one of the variants s0/s1/prodv/prod x 4 layer sets x level 0..11 x 1..4 recipients (one encrypted run in 30: 17, 84, 85, 86, 128, 300 or 1000 recipients; one scaled run in 25: 65..300 files of which 1-3 stay open across dozens of others; one in 60: a file with 255..4100 - thorough: 65537 - non-contiguous runs; one compressed production-size run in 10: a 4-5 MiB file of incompressible data appended in pieces of 64..512 bytes, i.e. 8000..80000 appends into one compression block, now and then with a flush after each), written to the simulated sink with full transfers (one history in four with flushes between calls, one in five with piece sources that return short reads or hold more than announced), then read back through the simulated source (caller buffers of 4 KiB, now and then 1, 7, 100, CHUNK-1, CHUNK+1, 64 KiB or 1 MiB bytes); the first 4104 runs enumerate every content length 0..512 on s0 for 1- and 2-file archives x 4 layer sets. The last 4 runs of the thorough tier hold a file of 2^32 + up to 64 MiB zero bytes (streamed, compression alone / over encryption, production constants; judged on listing, announced size, streamed length and SHA-256, stored hash, and the small files around it). Oracle: listing == model names, size, bytes and stored SHA-256 per file == abstract map model. distinct_nontrivial counts distinct signatures (variant, layers, #files, interleaved, alignment class of content length vs CHUNK and BLOCK, alignment class of the encryption-layer plaintext vs CHUNK, alignment class of the file-layer stream length vs BLOCK (compression) or CHUNK, name kinds). Half of the production-size runs are ALIGNED by a solver: a model of the file-layer stream length (blocks + marker + index footer) grows one piece so that the stream handed to the compression layer is exactly k*4 MiB (or +1, -1), respectively the encryption-layer plaintext exactly k*128 KiB (or +1..5 - the footer length field alone or split in the last chunk -, 15, 16, 17, -1).".into()
+        "run = seeded valid writer history (start/append/end/add interleaved, boundary-biased piece sizes relative to the variant's constants) on one of the variants s0/s1/prodv/prod x 4 layer sets x level 0..11 x 1..4 recipients (one encrypted run in 30: 17, 84, 85, 86, 128, 300 or 1000 recipients; one scaled run in 25: 65..300 files of which 1-3 stay open across dozens of others; one in 60: a file with 255..4100 - thorough: 65537 - non-contiguous runs; one compressed production-size run in 10: a 4-5 MiB file of incompressible data appended in pieces of 64..512 bytes, i.e. 8000..80000 appends into one compression block, now and then with a flush after each), written to the simulated sink with full transfers (one history in four with flushes between calls, one in five with piece sources that return short reads or hold more than announced), then read back through the simulated source (caller buffers of 4 KiB, now and then 1, 7, 100, CHUNK-1, CHUNK+1, 64 KiB or 1 MiB bytes); the first 4104 runs enumerate every content length 0..512 on s0 for 1- and 2-file archives x 4 layer sets. The last 4 runs of the thorough tier hold a file of 2^32 + up to 64 MiB bytes (streamed; zeros under compression alone / over encryption; on the last one incompressible noise under compression, so that the compressed blocks themselves total more than 2^32 bytes - that archive lives in a scratch file; production constants; judged on listing, announced size, streamed length and SHA-256, stored hash, and the small files around it). Oracle: listing == model names, size, bytes and stored SHA-256 per file == abstract map model. distinct_nontrivial counts distinct signatures (variant, layers, #files, interleaved, alignment class of content length vs CHUNK and BLOCK, alignment class of the encryption-layer plaintext vs CHUNK, alignment class of the file-layer stream length vs BLOCK (compression) or CHUNK, name kinds). Half of the production-size runs are ALIGNED by a solver: a model of the file-layer stream length (blocks + marker + index footer) grows one piece so that the stream handed to the compression layer is exactly k*4 MiB (or +1, -1), respectively the encryption-layer plaintext exactly k*128 KiB (or +1..5 - the footer length field alone or split in the last chunk -, 15, 16, 17, -1).".into()
     }
     fn assumptions(&self) -> Vec<String> {
         vec![
@@ -64,13 +64,18 @@ impl Prop for C01 {
             // a file longer than 2^32 bytes (zeros, streamed through compression, alone or over encryption): sizes,
             // offsets and counters beyond 32 bits in the writer, the index and the reader
             let k = run - SYS_N - 120_000;
-            let layers = if k % 2 == 0 { L_COMP } else { L_COMP | L_ENC };
-            let cfg = ArcCfg { variant: "prodv".into(), layers, level: (k % 2) as u32, recipients: usize::from(layers & 1 != 0), reader: 0, rng_seed: run + 1, key_seed: 7 };
+            // the last one is INCOMPRESSIBLE (compression alone, level 0): more than 2^32 bytes of compressed blocks, the
+            // archive itself spilled to a scratch file
+            let noise = k == HUGE_RUNS - 1;
+            let layers = if noise || k % 2 == 0 { L_COMP } else { L_COMP | L_ENC };
+            let cfg = ArcCfg { variant: "prodv".into(), layers, level: if noise { 0 } else { (k % 2) as u32 }, recipients: usize::from(layers & 1 != 0), reader: 0, rng_seed: run + 1, key_seed: 7 };
             let n = (1usize << 32) + rng.range(1, 64 << 20) as usize;
             let stream = Src { sched: Sched::Full, short_by: 0, extra: 0, stream: true };
-            let ops = vec![WOp::Add { name: Name::lit("before"), data: Data::Text { n: 777, seed: 2 }, src: Src::exact() }, WOp::Start { f: 1, name: Name::lit("huge") }, WOp::Append { f: 1, data: Data::Zeros { n: n / 2 }, src: stream.clone() }, WOp::Append { f: 1, data: Data::Zeros { n: n - n / 2 }, src: stream }, WOp::End { f: 1 }, WOp::Add { name: Name::lit("after"), data: Data::Text { n: 1000, seed: 4 }, src: Src::exact() }, WOp::Finalize];
+            let piece = |n: usize, seed: u64| if noise { Data::Rand { n, seed } } else { Data::Zeros { n } };
+            let ops = vec![WOp::Add { name: Name::lit("before"), data: Data::Text { n: 777, seed: 2 }, src: Src::exact() }, WOp::Start { f: 1, name: Name::lit("huge") }, WOp::Append { f: 1, data: piece(n / 2, 11), src: stream.clone() }, WOp::Append { f: 1, data: piece(n - n / 2, 12), src: stream }, WOp::End { f: 1 }, WOp::Add { name: Name::lit("after"), data: Data::Text { n: 1000, seed: 4 }, src: Src::exact() }, WOp::Finalize];
             let mut case = Case::new("C01", cfg, ops);
             case.params.insert("huge".into(), n as i64);
+            case.params.insert("noise".into(), i64::from(noise));
             return case;
         }
         let variant = pick_variant(&mut rng, tier);
@@ -167,7 +172,23 @@ impl Prop for C01 {
     fn exec(&self, case: &Case, ctx: &mut Ctx) -> Vec<Violation> {
         let s = sut(&case.cfg.variant);
         let vc = s.consts();
-        let sink = SimSink::new(&Sched::Full);
+        // the incompressible 4 GiB run stores its archive in a scratch file, not in memory
+        let noise = case.param("noise", 0) == 1;
+        let scratch = crate::runner::verif_dir().join(".build").join("scratch").join(format!("c01-{}-{}", std::process::id(), case.param("huge", 0)));
+        let spill = scratch.join("huge.mla");
+        if noise {
+            let _ = std::fs::create_dir_all(&scratch);
+        }
+        struct Cleanup(Option<std::path::PathBuf>);
+        impl Drop for Cleanup {
+            fn drop(&mut self) {
+                if let Some(p) = &self.0 {
+                    let _ = std::fs::remove_dir_all(p);
+                }
+            }
+        }
+        let _cleanup = Cleanup(if noise { Some(scratch.clone()) } else { None });
+        let sink = if noise { SimSink::counting(&Sched::Full, Some(&spill)) } else { SimSink::new(&Sched::Full) };
         let w = s.write(&case.cfg, &case.ops, sink.clone());
         let mut v = Vec::new();
         ctx.eval();
@@ -199,16 +220,26 @@ impl Prop for C01 {
                 h.update(&zeros[..k]);
                 left -= k as u64;
             }
-            let want: [u8; 32] = h.finalize().into();
+            let mut want: [u8; 32] = h.finalize().into();
             let small: Vec<(String, Vec<u8>)> = case.ops.iter().filter_map(|o| if let WOp::Add { name, data, .. } = o { Some((name.string(), data.bytes())) } else { None }).collect();
-            let rcfg = ReadCfg::for_cfg(&case.cfg);
+            let mut rcfg = ReadCfg::for_cfg(&case.cfg);
+            if noise {
+                rcfg.spill_path = Some(spill.to_string_lossy().to_string());
+            }
             let mut rops = vec![ROp::List, ROp::Open { name: "huge".into() }, ROp::ReadAllDigest { n: 1 << 20 }, ROp::Hash { name: "huge".into() }];
             for (nm, _) in &small {
                 rops.push(ROp::Open { name: nm.clone() });
                 rops.push(ROp::ReadAll { n: 4096 });
             }
-            let out = s.read(Rc::new(sink.data()), &rcfg, &rops);
+            let out = s.read(Rc::new(if noise { Vec::new() } else { sink.data() }), &rcfg, &rops);
             ctx.eval();
+            if noise {
+                // the generated noise is not recomputed by the harness: what is read back must hash to the STORED hash
+                // (and have the right length)
+                if let (Some(RRes::Digest { .. }), Some(RRes::Hash(hh))) = (out.results.get(2), out.results.get(3)) {
+                    want = *hh;
+                }
+            }
             if let Some(p) = &out.panic {
                 v.push(Violation::new("rt-panic", "huge", format!("reader panicked on the archive holding a {n}-byte file: {p}")));
                 return v;
